@@ -150,4 +150,12 @@ Case minimise(const PropertyEngine &pe, const Case &c, const Violation &v, int b
 
 std::vector<std::string> domains_with(unsigned must_have, unsigned must_not_have, bool core_only);
 
+// Input-level neutralisers of known findings (DESIGN.md 3.7): rewrite a program so
+// that it no longer exercises a known-defective call site of crab.
+//   break_recursion        : call sites that close a call-graph cycle havoc their outputs
+//   drop_dead_end_asserts  : assertions in blocks that cannot reach the exit are removed
+//   unique_names           : every variable is renamed apart per function
+//   replace:<op>[.<kind>]  : statements of that kind become a havoc of their lhs
+void rewrite_program(Program &p, const std::string &what);
+
 } // namespace sim
